@@ -121,7 +121,15 @@ template <class T, int L, glm::qualifier Q> static void run_extfp(pbt::Ctx& c, c
 	fill(c, d, L, [&] { return gen_qnan_or<T>(c, gen_nonnan<T>(c)); });
 	fill(c, e, L, [&] { return gen_qnan_or<T>(c, gen_nonnan<T>(c)); });
 	fill(c, md, L, [&] { return gen_mod<T>(c, 8, 8); });
-	fill(c, nneg, L, [&] { T v = std::fabs(c.coin() ? gen_mod<T>(c, 8, 20) : (T)((double)c.range(0, 200) * 0.5)); return v < T(2147483000.0) ? v : T(1.5); });
+	fill(c, nneg, L, [&] {
+		T v;
+		switch (c.draw(6)) {
+		case 0: v = std::nextafter(T(0.5), T(0)) + (T)c.range(0, 3); break;                                  // the largest value below a tie
+		case 1: { const int mant = std::numeric_limits<T>::digits; double lo = std::ldexp(1.0, mant - 1); v = (T)(lo + 1.0 + 2.0 * (double)c.draw(1000)); break; }  // odd integers in [2^(p-1), 2^p): x + 0.5 is a tie there
+		case 2: v = (T)((double)c.range(0, 200) * 0.5); break;
+		default: v = std::fabs(gen_mod<T>(c, 8, 20)); break;
+		}
+		return v < T(2147483000.0) ? v : T(1.5); });
 	T s = gen_nonnan<T>(c), t = gen_nonnan<T>(c);
 	if (c.verbose) c.logf("%s a=%s b=%s c=%s d=%s m=%s nonneg=%s s=%s t=%s", in.name.c_str(), showv(a, L).c_str(), showv(b, L).c_str(), showv(d, L).c_str(), showv(e, L).c_str(), showv(md, L).c_str(), showv(nneg, L).c_str(), show(s).c_str(), show(t).c_str());
 	{ int nn = 0; for (int i = 0; i < L; ++i) nn += fp::is_nan(a[i]) || fp::is_nan(b[i]); if (nn > 0 && nn < L) c.cls("fmin/fmax: NaN in some lanes only"); }
